@@ -420,6 +420,107 @@ fn cmd_render(args: &[String]) -> i32 {
     0
 }
 
+/// C13: render the Doc of help / error outcomes at many widths; per rendering, the lines as
+/// (indent, [(gap, word length)]) events plus the text with all whitespace removed
+fn cmd_wrap(args: &[String]) -> i32 {
+    use bpaf::ParseFailure;
+    let defs_path = arg_val(args, "--defs").expect("--defs");
+    let out = arg_val(args, "--out").expect("--out");
+    let widths: Vec<usize> = arg_val(args, "--widths").expect("--widths").split(',').map(|x| x.parse().unwrap()).collect();
+    let rd = BufReader::new(std::fs::File::open(&defs_path).unwrap());
+    let mut w = BufWriter::new(std::fs::File::create(&out).unwrap());
+    let strip = |t: &str| -> String { t.chars().filter(|c| !c.is_whitespace()).collect() };
+    let mut n = 0u64;
+    for l in rd.lines() {
+        let l = l.unwrap();
+        if l.trim().is_empty() {
+            continue;
+        }
+        let def: J = serde_json::from_str(&l).unwrap();
+        let b = match build(&def) {
+            Ok(b) => b,
+            Err(_) => continue,
+        };
+        let mut paths = Vec::new();
+        all_paths(&def, &mut Vec::new(), &mut paths);
+        let mut lines: Vec<(String, Vec<String>)> = Vec::new();
+        for p in &paths {
+            let mut a = p.clone();
+            a.push("--help".into());
+            lines.push((format!("help:{}", p.join("/")), a));
+        }
+        lines.push(("err:unknown".into(), vec!["--zzunknownflag".into()]));
+        lines.push(("err:empty".into(), vec![]));
+        lines.push(("err:word".into(), vec!["surplusword".into(), "another".into()]));
+        for (docid, argv) in lines {
+            let argv: Vec<std::ffi::OsString> = argv.iter().map(|x| x.into()).collect();
+            let r = std::panic::catch_unwind(std::panic::AssertUnwindSafe(|| {
+                b.parser.run_inner(bpaf::Args::from(argv.as_slice()).set_name(APP))
+            }));
+            let doc = match r {
+                Ok(Err(ParseFailure::Stdout(d, _))) | Ok(Err(ParseFailure::Stderr(d))) => d,
+                Ok(_) => continue,
+                Err(e) => {
+                    writeln!(w, "{}", json!({"def": def["id"], "doc": docid, "width": 0, "panic": panic_text(&e)})).unwrap();
+                    continue;
+                }
+            };
+            let render = |wd: usize| std::panic::catch_unwind(std::panic::AssertUnwindSafe(|| format!("{:w$}", doc, w = wd)));
+            let reference = match render(60000) {
+                Ok(t) => t,
+                Err(e) => {
+                    writeln!(w, "{}", json!({"def": def["id"], "doc": docid, "width": 60000, "panic": panic_text(&e)})).unwrap();
+                    continue;
+                }
+            };
+            let ref_lines: std::collections::HashSet<&str> = reference.lines().collect();
+            let refs = strip(&reference);
+            // the short form (first paragraph of every help text only)
+            let short = doc.monochrome(false);
+            let full = doc.monochrome(true);
+            writeln!(w, "{}", json!({"def": def["id"], "doc": docid, "kind": "short", "width": 100,
+                "short": tokens_of(&short), "full": tokens_of(&full)})).unwrap();
+            for &wd in &widths {
+                let text = match render(wd) {
+                    Ok(t) => t,
+                    Err(e) => {
+                        writeln!(w, "{}", json!({"def": def["id"], "doc": docid, "width": wd, "panic": panic_text(&e)})).unwrap();
+                        continue;
+                    }
+                };
+                let mut evs = Vec::new();
+                for line in text.lines() {
+                    let chars: Vec<char> = line.chars().collect();
+                    let indent = chars.iter().take_while(|c| **c == ' ').count();
+                    let mut toks = Vec::new();
+                    let mut i = indent;
+                    let mut gap = 0usize;
+                    while i < chars.len() {
+                        if chars[i] == ' ' {
+                            gap += 1;
+                            i += 1;
+                        } else {
+                            let st = i;
+                            while i < chars.len() && chars[i] != ' ' {
+                                i += 1;
+                            }
+                            toks.push(json!({"g": gap, "w": i - st}));
+                            gap = 0;
+                        }
+                    }
+                    evs.push(json!({"indent": indent, "toks": toks, "code": ref_lines.contains(line), "len": chars.len()}));
+                }
+                writeln!(w, "{}", json!({"def": def["id"], "doc": docid, "kind": "wrap", "width": wd,
+                    "refs": refs, "got": strip(&text), "lines": evs})).unwrap();
+                n += 1;
+            }
+        }
+    }
+    w.flush().unwrap();
+    println!("{}", json!({"renderings": n}));
+    0
+}
+
 fn main() {
     std::panic::set_hook(Box::new(|_| {}));
     let args: Vec<String> = std::env::args().collect();
@@ -427,6 +528,7 @@ fn main() {
         Some("replay") => cmd_replay(&args[2..]),
         Some("proc") => cmd_proc(&args[2..]),
         Some("render") => cmd_render(&args[2..]),
+        Some("wrap") => cmd_wrap(&args[2..]),
         _ => {
             eprintln!("usage: harness replay --defs F --cases F --out F [--dump-obs F]");
             2
